@@ -32,6 +32,7 @@ package markers
 //@   requires err != nil
 //@   defines markOf(err)
 //@   ensures typeis(err, *withMark) ==> result == err.(*withMark).mark
+//@   ensures len(result.types) >= 1
 //@   ensures !typeis(err, *withMark) ==> result.msg == msg(err)
 //@   ensures !typeis(err, *withMark) ==> len(result.types) == chainLen(err)
 //@   ensures !typeis(err, *withMark) ==> (forall i int :: 0 <= i && i < chainLen(err) ==> result.types[i] == tmark(chainAt(err, i)))
